@@ -267,6 +267,20 @@ def check(ctx):
                           'whitespace literal (loops taken twice and skipped, sub-objects expanded)')
         ctx.guard('ii.separator', wsite, r_sep)
 
+        # (ii-b) exactly one newline between a token and a free-text field that follows it
+        def r_textsep(g=g):
+            bad = sergram.text_separator_violations(g.writer, grams)
+            if bad:
+                a_, b_, p_ = bad[0]
+                ctx.violation('ii.text_separator', '%s:%s' % (getattr(b_, 'where', '?'), base), 'the free-text field %s is '
+                              'separated from the token written before it (at %s) by %r instead of exactly one newline: '
+                              'getline takes an empty / wrong line as the text and everything after it is shifted'
+                              % (getattr(b_, 'label', None) or '?', getattr(a_, 'where', '?'), p_),
+                              {'abstract_counterexample': 'a result with two distributions: the second name is read as ""'})
+            else:
+                ctx.holds('ii.text_separator', wsite, 'every free-text field follows the previous token after exactly one newline')
+        ctx.guard('ii.text_separator', wsite, r_textsep)
+
         # (iii) floating-point format state
         def r_fmt(g=g):
             probs = []
